@@ -756,6 +756,7 @@ def rule_io_and_exits(ctx):
               bad_what="read_line(..).unwrap(): an I/O error (e.g. invalid UTF-8 on stdin) panics the main thread")
     # (2) exit edge controlled by the byte count
     count_exits = []
+    wrong_count_exits = []
     err_exits = []
     for blk in b.blocks:
         if blk.cleanup or blk.term["k"] != "switch" or blk.idx not in b.live_blocks():
@@ -763,19 +764,35 @@ def rule_io_and_exits(ctx):
         e = sym.operand(blk.term["discr"])
         f, tr = C.switch_edges(blk.term)
         if mentions_payload(e, b, res_local):
-            # an edge that reaches EXIT without reaching the parse
+            # an edge that reaches EXIT without reaching the parse ...
+            # ... and that is the edge taken when the count is 0: the count itself switched on (value 0 = `f`), or a comparison
+            # of it with 0
+            ee = mir.strip_copies(e)
+            zero_side = None
+            if ee[0] == "bin" and ee[3][0] == "const" and ee[3][1] == 0:
+                zero_side = {"Eq": tr, "Ne": f, "Gt": f, "Le": tr}.get(ee[1])
+            elif ee[0] == "bin" and ee[3][0] == "const" and ee[3][1] == 1:
+                zero_side = {"Lt": tr, "Ge": f}.get(ee[1])
+            elif ee[0] != "bin":
+                zero_arm = [a[1] for a in blk.term["arms"] if a[0] == 0]
+                zero_side = zero_arm if zero_arm else None
             for side in (f, tr):
                 reach = set()
                 for x in side:
                     reach |= b.threaded_reach(x)
                 if mir.EXIT in reach and not (reach & parse):
-                    count_exits.append(blk.idx)
+                    if zero_side is not None and sorted(side) == sorted(zero_side):
+                        count_exits.append(blk.idx)
+                    else:
+                        wrong_count_exits.append(blk.idx)
         if e[0] == "discr" and (expr_str(e[1]) == b.local_name(res_local) or (isinstance(e[1], tuple) and e[1][0] == "call" and str(e[1][1]).endswith("::read_line"))):
             for a in blk.term["arms"]:
                 if a[0] == 1:
                     reach = b.threaded_reach(a[1])
                     if mir.EXIT in reach and not (reach & parse):
                         err_exits.append(blk.idx)
+    ctx.check(not wrong_count_exits, "%s:exit-only-on-count-zero" % UCI_LOOP, "the byte count ends the loop only when it is 0", b.where(rb),
+              bad_what="the loop is left on a byte count other than 0 (or the edge taken on 0 could not be identified): a one-character line ends the session, or end of input does not")
     ctx.check(bool(count_exits), "%s:exit-on-end-of-input" % UCI_LOOP,
               "the loop has an exit edge controlled by read_line's byte count (0 = end of input)", b.where(rb),
               bad_what="the byte count returned by read_line is never tested: when stdin is closed the loop spins forever on empty lines instead of terminating")
